@@ -296,8 +296,27 @@ func (fx *FuncCtx) memberGoalExists(fams []famInst, rid, addr Term) Term {
 }
 
 // checkStore: obligations for a store to sv[idx].
+// raceCheck: the parent goroutine touches (rid, addr) while goroutines with
+// declared footprints may be running: the cell must be outside all of them.
+func (fx *FuncCtx) raceCheck(st *State, rid, addr Term, node ast.Node, what string) {
+	if fx.goDepth > 0 || len(fx.outstanding) == 0 {
+		return
+	}
+	// conservative: the whole region of a footprint slice is off limits until the join
+	var ds []Term
+	seen := map[string]bool{}
+	for _, f := range fx.outstanding {
+		if !seen[f.sl.Rid.S] {
+			seen[f.sl.Rid.S] = true
+			ds = append(ds, Not(Eq(rid, f.sl.Rid)))
+		}
+	}
+	fx.obligeKind(st, "go.race", And(ds...), node, what+" while goroutines are running")
+}
+
 func (fx *FuncCtx) checkStore(st *State, sv SliceV, idx Term, node ast.Node) {
 	fx.curNode = node
+	fx.raceCheck(st, sv.Rid, Add(sv.Off, idx), node, "store")
 	fx.loopStoreCheck(sv, node)
 	if !fx.visible(sv.Rid) {
 		return
@@ -338,6 +357,21 @@ func (fx *FuncCtx) checkStoreRange(st *State, sv SliceV, lo, n Term, node ast.No
 // checkCallFrame: the callee's write family lies inside ours.
 func (fx *FuncCtx) checkCallFrame(st *State, f famInst, node ast.Node, what string) {
 	fx.curNode = node
+	if fx.goDepth == 0 && len(fx.outstanding) > 0 && what != "goroutine footprint" {
+		s2 := st.clone()
+		var rng []Term
+		for i, v := range f.vars {
+			rng = append(rng, Le(f.lo[i], v), Lt(v, f.hi[i]))
+		}
+		s2.assume(And(append(rng, f.cond)...))
+		if f.whole {
+			k := fx.freshConst("k_r", SInt)
+			s2.assume(And(Ge(k, IntLit(0)), Lt(k, f.sl.Len)))
+			fx.raceCheck(s2, f.sl.Rid, Add(f.sl.Off, k), node, what)
+		} else {
+			fx.raceCheck(s2, f.sl.Rid, Add(f.sl.Off, f.index), node, what)
+		}
+	}
 	fx.loopStoreCheck(f.sl, node)
 	if !fx.visible(f.sl.Rid) {
 		return
